@@ -354,6 +354,7 @@ impl From<SupportedRegister> for Register {
             SupportedRegister::R13 => Register::R13,
             SupportedRegister::R14 => Register::R14,
             SupportedRegister::R15 => Register::R15,
+            SupportedRegister::EIP => Register::EIP,
             SupportedRegister::EAX => Register::EAX,
             SupportedRegister::EBX => Register::EBX,
             SupportedRegister::ECX => Register::ECX,
